@@ -12,6 +12,16 @@ def hook_commits():
         return []
 
 CHECKS = {
+ "C18": dict(
+    category="exploration", design_ref="DESIGN.md §4 C18",
+    technique="round-trip and differential monitors against encoding/json generic decoding; reference RES-value classifier; algebraic checks of Value.Equal; client-side parsing of responses recorded from a real service",
+    text="Ref/SoftRef marshal -> generic decode -> unmarshal for every string of length <=3 over 9 hostile atoms (exhaustive) and random valid UTF-8 up to 4 KiB; MarshalDataValue/UnmarshalDataValue round trips on random JSON values (depth <=4) incl. wrapping shape and documented error cases; store.Value classification of every single member, every member pair and random member combinations with whitespace against a reference classifier; reflexivity/symmetry/transitivity of Equal and Equal => same semantic normal form on random triples; every reply kind of a real Service (result values, resource, every error kind, model/collection with query, access, new; with and without HTTP meta) parsed by resprot.ParseResponse must be exactly one of result/resource/error and decode to what the handler supplied.",
+    note="encoding/json is the reference; objects with unknown extra members may be classified either way; only valid UTF-8 is round-tripped."),
+ "C19": dict(
+    category="exploration", design_ref="DESIGN.md §4 C19",
+    technique="scripted connection playing timed schedules into the inbox + reference simulation of the deadline rule with margin/latency guards; subscription-count probe and end-to-end calls on an embedded NATS server",
+    text="SendRequest is called against a scripted connection that plays random schedules of valid/unknown/malformed pre-responses, responses of 8 kinds and silences in units of 40 ms (deadlines fall on half units) and records the instants at which messages were offered; the returned Response, the extension callbacks and the return time are compared with a reference simulation; cases whose recorded instants or measured scheduling latency violated the 20 ms margin are discarded as inconclusive; a call that has not returned 5 s after the expected instant is a violation. Marshal/subscribe/publish failures must be reported as internal errors without waiting and without further connection calls. On an embedded NATS server the client's subscription count must return to its baseline after each of six return paths, and a real go-res service sending Timeout pre-responses is called end to end.",
+    note="Timing verdicts only from cases that kept the margin; wall clock tolerance 15 ms early / 500 ms late (late = inconclusive)."),
  "C08": dict(
     category="exploration", design_ref="DESIGN.md §4 C08",
     technique="single global event log (apply handlers + recording connection + listeners, sequence number and goroutine id each) compared with the log computed from the script; contiguity checker for message blocks per group under concurrency",
